@@ -528,7 +528,7 @@ def fclient_client_destinationTripper_RoundTrip : List String := [
   "serverName := spec.ServerName(r.URL.Host)",
   "resolutionRetried := false",
   "resolutionResults := []ResolutionResult{}",
-  "retryResolution: if f.wellKnownSRV { if cached, ok := f.resolutionCache.Load(serverName); ok { if results, ok := cached.([]ResolutionResult); ok { resolutionResults = results } } if len(resolutionResults) == 0 { resolutionResults, err = ResolveServer(r.Context(), serverName) if err != nil { return nil, err } f.resolutionCache.Store(serverName, resolutionResults) } } else { resolutionResults = append(resolutionResults, ResolutionResult{Destination: r.URL.Host, Host: spec.ServerName(r.Host), TLSServerName: r.Host}) }",
+  "retryResolution: if f.wellKnownSRV { if cached, ok := f.resolutionCache.Load(serverName); ok { if results, ok := cached.([]ResolutionResult); ok { resolutionResults = results } } if len(resolutionResults) == 0 { ctx := withWellKnownTransport(r.Context(), f.wellKnownTransport()) resolutionResults, err = ResolveServer(ctx, serverName) if err != nil { return nil, err } f.resolutionCache.Store(serverName, resolutionResults) } } else { resolutionResults = append(resolutionResults, ResolutionResult{Destination: r.URL.Host, Host: spec.ServerName(r.Host), TLSServerName: r.Host}) }",
   "if len(resolutionResults) == 0 {",
   "return nil, fmt.Errorf(\"no address found for matrix host %v\", serverName)",
   "}",
@@ -559,7 +559,7 @@ def fclient_client_destinationTripper_getTransport : List String := [
   "if !ok {",
   "tr := &destinationTripperTransport{Transport: &http.Transport{DisableKeepAlives: !f.keepAlives, MaxIdleConnsPerHost: 1, IdleConnTimeout: destinationTripperLifetime, TLSClientConfig: &tls.Config{ServerName: tlsServerName, InsecureSkipVerify: f.skipVerify, ClientSessionCache: tls.NewLRUClientSessionCache(0)}, Dial: dialer.Dial, DialContext: dialer.DialContext, Proxy: http.ProxyFromEnvironment, ForceAttemptHTTP2: true}}",
   "if f.dnsCache != nil {",
-  "tr.DialContext = f.dnsCache.DialContext",
+  "tr.DialContext = f.dnsCache.dialContextVia(dialer)",
   "}",
   "transport, f.transports[tlsServerName] = tr, tr",
   "}",
@@ -580,8 +580,38 @@ def fclient_client_destinationTripper_reaper : List String := [
   "time.AfterFunc(destinationTripperReapInterval, f.reaper)"
 ]
 
+def fclient_client_destinationTripper_wellKnownTransport : List String := [
+  "func func() http.RoundTripper",
+  "if f.dialer.ControlContext == nil && f.dnsCache == nil {",
+  "return nil",
+  "}",
+  "f.transportsMutex.Lock()",
+  "defer f.transportsMutex.Unlock()",
+  "if f.wellKnown == nil {",
+  "var tr *http.Transport",
+  "if def, ok := http.DefaultTransport.(*http.Transport); ok {",
+  "tr = def.Clone()",
+  "} else {",
+  "tr = &http.Transport{Proxy: http.ProxyFromEnvironment}",
+  "}",
+  "tr.DialContext = f.dialer.DialContext",
+  "if f.dnsCache != nil {",
+  "tr.DialContext = f.dnsCache.dialContextVia(f.dialer)",
+  "}",
+  "tr.DialTLSContext = nil",
+  "tr.Dial, tr.DialTLS = nil, nil",
+  "f.wellKnown = tr",
+  "}",
+  "return f.wellKnown"
+]
+
 def fclient_dnscache_DNSCache_DialContext : List String := [
   "func func(ctx context.Context, network, address string) (net.Conn, error)",
+  "return c.dialContext(ctx, &c.dialer, address)"
+]
+
+def fclient_dnscache_DNSCache_dialContext : List String := [
+  "func func(ctx context.Context, dialer *net.Dialer, address string) (net.Conn, error)",
   "host, port, err := net.SplitHostPort(address)",
   "if err != nil {",
   "return nil, fmt.Errorf(\"net.SplitHostPort: %w\", err)",
@@ -592,7 +622,7 @@ def fclient_dnscache_DNSCache_DialContext : List String := [
   "return nil, fmt.Errorf(\"lookup failed for %q\", host)",
   "}",
   "for _, addr := range entry.addrs {",
-  "conn, err := c.dialer.DialContext(ctx, \"tcp\", addr.String()+\":\"+port)",
+  "conn, err := dialer.DialContext(ctx, \"tcp\", net.JoinHostPort(addr.String(), port))",
   "if err != nil {",
   "continue",
   "}",
@@ -606,6 +636,13 @@ def fclient_dnscache_DNSCache_DialContext : List String := [
   "goto retryLookup",
   "}",
   "return nil, fmt.Errorf(\"connection failed to %q via %d addresses\", host, len(entry.addrs))"
+]
+
+def fclient_dnscache_DNSCache_dialContextVia : List String := [
+  "func func(dialer *net.Dialer) func(ctx context.Context, network, address string) (net.Conn, error)",
+  "chained := *dialer",
+  "chained.ControlContext = chainControls(c.dialer.ControlContext, dialer.ControlContext)",
+  "return func(ctx context.Context, network, address string) (net.Conn, error) { return c.dialContext(ctx, &chained, address) }"
 ]
 
 def fclient_dnscache_DNSCache_lookup : List String := [
@@ -645,6 +682,11 @@ def fclient_dnscache_DNSCache_lookup : List String := [
 def fclient_dnscache__NewDNSCache : List String := [
   "func func(size int, duration time.Duration, allowNetworks, denyNetworks []string) *DNSCache",
   "return &DNSCache{resolver: net.DefaultResolver, size: size, duration: duration, entries: make(map[string]*dnsCacheEntry), dialer: net.Dialer{ControlContext: allowDenyNetworksControl(allowNetworks, denyNetworks)}}"
+]
+
+def fclient_dnscache__chainControls : List String := [
+  "func func(controls ...controlFunc) controlFunc",
+  "return func(ctx context.Context, network, address string, conn syscall.RawConn) error { for _, control := range controls { if control == nil { continue } if err := control(ctx, network, address, conn); err != nil { return err } } return nil }"
 ]
 
 def keyring_DirectKeyFetcher_FetchKeys : List String := [
@@ -996,6 +1038,6 @@ def keyring__mapServerKeysToPublicKeyLookupResult : List String := [
   "}"
 ]
 
-def functions : List String := ["eventV2.go:.CheckFields", "eventV2.go:.newEventFromTrustedJSONV2", "eventV2.go:.newEventFromTrustedJSONWithEventIDV2", "eventV2.go:.newEventFromUntrustedJSONV2", "eventV2.go:eventV2.AuthEventIDs", "eventV2.go:eventV2.EventID", "eventV2.go:eventV2.MarshalJSON", "eventV2.go:eventV2.PrevEventIDs", "eventV2.go:eventV2.Redact", "eventV2.go:eventV2.SenderID", "eventV2.go:eventV2.SetUnsigned", "eventV2.go:eventV2.Sign", "eventV2.go:eventV2.populateEventID", "fclient/client.go:Client.CreateMediaDownloadRequest", "fclient/client.go:Client.DoHTTPRequest", "fclient/client.go:Client.DoRequestAndParseResponse", "fclient/client.go:Client.GetServerKeys", "fclient/client.go:Client.GetVersion", "fclient/client.go:Client.LookupServerKeys", "fclient/client.go:Client.LookupUserInfo", "fclient/client.go:Client.SetUserAgent", "fclient/client.go:.NewClient", "fclient/client.go:.WithAllowDenyNetworks", "fclient/client.go:.WithDNSCache", "fclient/client.go:.WithKeepAlives", "fclient/client.go:.WithSkipVerify", "fclient/client.go:.WithTimeout", "fclient/client.go:.WithTransport", "fclient/client.go:.WithUserAgent", "fclient/client.go:.WithWellKnownSRVLookups", "fclient/client.go:.allowDenyNetworksControl", "fclient/client.go:.inRange", "fclient/client.go:.isAllowed", "fclient/client.go:.makeHTTPSURL", "fclient/client.go:.newDestinationTripper", "fclient/client.go:.newDestinationTripperDialer", "fclient/client.go:destinationTripper.RoundTrip", "fclient/client.go:destinationTripper.getTransport", "fclient/client.go:destinationTripper.reaper", "fclient/dnscache.go:DNSCache.DialContext", "fclient/dnscache.go:DNSCache.lookup", "fclient/dnscache.go:.NewDNSCache", "keyring.go:DirectKeyFetcher.FetchKeys", "keyring.go:DirectKeyFetcher.FetcherName", "keyring.go:DirectKeyFetcher.fetchKeysForServer", "keyring.go:DirectKeyFetcher.fetchNotaryKeysForServer", "keyring.go:JSONVerifierSelf.VerifyJSONs", "keyring.go:KeyRing.VerifyJSONs", "keyring.go:KeyRing.checkUsingKeys", "keyring.go:KeyRing.isAlgorithmSupported", "keyring.go:KeyRing.publicKeyRequests", "keyring.go:PerspectiveKeyFetcher.FetchKeys", "keyring.go:PerspectiveKeyFetcher.FetcherName", "keyring.go:PublicKeyLookupRequest.MarshalText", "keyring.go:PublicKeyLookupRequest.UnmarshalText", "keyring.go:PublicKeyLookupResult.WasValidAt", "keyring.go:.NoStrictValidityCheck", "keyring.go:.StrictValiditySignatureCheck", "keyring.go:.mapServerKeysToPublicKeyLookupResult"]
+def functions : List String := ["eventV2.go:.CheckFields", "eventV2.go:.newEventFromTrustedJSONV2", "eventV2.go:.newEventFromTrustedJSONWithEventIDV2", "eventV2.go:.newEventFromUntrustedJSONV2", "eventV2.go:eventV2.AuthEventIDs", "eventV2.go:eventV2.EventID", "eventV2.go:eventV2.MarshalJSON", "eventV2.go:eventV2.PrevEventIDs", "eventV2.go:eventV2.Redact", "eventV2.go:eventV2.SenderID", "eventV2.go:eventV2.SetUnsigned", "eventV2.go:eventV2.Sign", "eventV2.go:eventV2.populateEventID", "fclient/client.go:Client.CreateMediaDownloadRequest", "fclient/client.go:Client.DoHTTPRequest", "fclient/client.go:Client.DoRequestAndParseResponse", "fclient/client.go:Client.GetServerKeys", "fclient/client.go:Client.GetVersion", "fclient/client.go:Client.LookupServerKeys", "fclient/client.go:Client.LookupUserInfo", "fclient/client.go:Client.SetUserAgent", "fclient/client.go:.NewClient", "fclient/client.go:.WithAllowDenyNetworks", "fclient/client.go:.WithDNSCache", "fclient/client.go:.WithKeepAlives", "fclient/client.go:.WithSkipVerify", "fclient/client.go:.WithTimeout", "fclient/client.go:.WithTransport", "fclient/client.go:.WithUserAgent", "fclient/client.go:.WithWellKnownSRVLookups", "fclient/client.go:.allowDenyNetworksControl", "fclient/client.go:.inRange", "fclient/client.go:.isAllowed", "fclient/client.go:.makeHTTPSURL", "fclient/client.go:.newDestinationTripper", "fclient/client.go:.newDestinationTripperDialer", "fclient/client.go:destinationTripper.RoundTrip", "fclient/client.go:destinationTripper.getTransport", "fclient/client.go:destinationTripper.reaper", "fclient/client.go:destinationTripper.wellKnownTransport", "fclient/dnscache.go:DNSCache.DialContext", "fclient/dnscache.go:DNSCache.dialContext", "fclient/dnscache.go:DNSCache.dialContextVia", "fclient/dnscache.go:DNSCache.lookup", "fclient/dnscache.go:.NewDNSCache", "fclient/dnscache.go:.chainControls", "keyring.go:DirectKeyFetcher.FetchKeys", "keyring.go:DirectKeyFetcher.FetcherName", "keyring.go:DirectKeyFetcher.fetchKeysForServer", "keyring.go:DirectKeyFetcher.fetchNotaryKeysForServer", "keyring.go:JSONVerifierSelf.VerifyJSONs", "keyring.go:KeyRing.VerifyJSONs", "keyring.go:KeyRing.checkUsingKeys", "keyring.go:KeyRing.isAlgorithmSupported", "keyring.go:KeyRing.publicKeyRequests", "keyring.go:PerspectiveKeyFetcher.FetchKeys", "keyring.go:PerspectiveKeyFetcher.FetcherName", "keyring.go:PublicKeyLookupRequest.MarshalText", "keyring.go:PublicKeyLookupRequest.UnmarshalText", "keyring.go:PublicKeyLookupResult.WasValidAt", "keyring.go:.NoStrictValidityCheck", "keyring.go:.StrictValiditySignatureCheck", "keyring.go:.mapServerKeysToPublicKeyLookupResult"]
 
 end VPins.C19
